@@ -1,3 +1,128 @@
-(* C18 — property theorems *)
-From Coq Require Import ZArith List.
+(* C18 — property theorems.  Only statements, [exact lemma] and Print Assumptions.
+   [dec] (the brotli decoder) is universally quantified in every statement that mentions it. *)
+From Coq Require Import ZArith List Bool Permutation.
 From FV Require Import Lib.RustInt C18.Model C18.Proofs.
+Import ListNotations.
+Open Scope Z_scope.
+
+(* table keyed: each patched table is the decoder's output for the FIRST entry naming it (replacement:
+   no dictionary; diff: the base table as dictionary), dropped tables are absent, every other table is
+   byte-identical — for every decoder *)
+Theorem c18_table_keyed_exact : forall dec f fmt offs p F, NoDup (map fst f) ->
+  apply_table_keyed dec f fmt offs p = inr F ->
+  forall x,
+    match tk_first (tk_entries p offs) x with
+    | None => lookup F x = lookup f x
+    | Some (t, fl, ml, s) =>
+        if Z.testbit fl 1 then lookup F x = None
+        else exists k out, dec k s (if Z.testbit fl 0 then None else lookup f x) ml = inr out /\
+                           lookup F x = Some out
+    end.
+Proof. exact apply_table_keyed_exact. Qed.
+
+(* a compatibility id that differs (PatchInfo vs font, or patch vs font) gives IncompatiblePatch
+   whatever the decoder would do: no decoder call can influence the outcome *)
+Theorem c18_incompatible_before_any_decode : forall f info p cid,
+  font_compat_id f (pi_tbl info) = inr cid ->
+  (bytes_eqb cid (pi_compat info) = false \/
+   exists fmt pcid offs, tk_header p = inr (fmt, pcid, offs) /\ bytes_eqb pcid cid = false) ->
+  forall dec, apply_table_keyed_patch dec f info p = inl (4, 0).
+Proof. exact tk_incompatible_no_decode. Qed.
+
+(* glyph keyed, on the offset-array abstraction: in the new (offsets, data) every glyph's slice is the
+   kept replacement data padded as the offset type requires if some patch lists the glyph, else the
+   glyph's old slice *)
+Theorem c18_glyph_keyed_exact : forall views t offs data T avail maxgid T' os ds,
+  patch_offset_array views t offs data T avail maxgid = inr (T', os, ds) -> 0 <= maxgid ->
+  exists m, dedup views t = inr m /\
+   (Forall (fun gd => 0 <= fst gd) m ->
+    forall g, 0 <= g <= maxgid ->
+      exists a b s, nthZ os g = Some a /\ nthZ os (g + 1) = Some b /\
+                    new_slice T' m offs data g = Some s /\ slice ds a b = Some s).
+Proof. exact poa_exact. Qed.
+
+(* ... and the kept replacement data for a glyph is the FIRST one listed for it, in patch order *)
+Theorem c18_first_patch_wins : forall views t m, dedup views t = inr m ->
+  exists items, mapM (fun v => gp_items v t) views = inr items /\
+                forall g, lookup m g = first_data (concat items) g.
+Proof. exact dedup_first_wins. Qed.
+
+(* offsets ascending, numGlyphs+1 of them, first 0, last = data length, all representable *)
+Theorem c18_offsets_ascending : forall views t offs data T avail maxgid T' os ds,
+  patch_offset_array views t offs data T avail maxgid = inr (T', os, ds) -> 0 <= maxgid ->
+  (forall m, dedup views t = inr m -> Forall (fun gd => 0 <= fst gd) m) ->
+  ascending os = true /\ len os = maxgid + 2 /\ nthZ os 0 = Some 0 /\ last os 0 = len ds /\
+  Forall (fun x => off_fits T' x = true) os.
+Proof. exact poa_offsets. Qed.
+
+Theorem c18_offset_type_widens_only_when_needed : forall views t offs data T avail maxgid T' os ds,
+  patch_offset_array views t offs data T avail maxgid = inr (T', os, ds) ->
+  Forall (fun x => off_fits T' x = true) os /\
+  exists total,
+    (total <= ot_max T /\ T' = T) \/
+    (ot_max T < total /\ total <= ot_max T' /\
+     exists pre post, avail = pre ++ T' :: post /\ Forall (fun c => ot_max c < total) pre).
+Proof. exact poa_type_widens_only_when_needed. Qed.
+
+(* glyf/loca instance: new glyf = builder data, new loca = encoded builder offsets, same loca format *)
+Theorem c18_glyf_loca_are_the_builder_output : forall f views maxgid glyf' loca',
+  patch_glyf f views maxgid = inr (glyf', loca') ->
+  exists glyf T offs os,
+    lookup f T_glyf = Some glyf /\ read_loca f = Some (T, offs) /\
+    patch_offset_array views T_glyf offs glyf T [T] maxgid = inr (T, os, glyf') /\
+    loca' = encode_offsets T os.
+Proof. exact patch_glyf_inv. Qed.
+
+Theorem c18_other_tables_identical : forall f infos views F x, NoDup (map fst f) ->
+  gk_core f infos views = inr F ->
+  x <> T_glyf -> x <> T_loca -> x <> T_IFT -> x <> T_IFTX -> lookup F x = lookup f x.
+Proof. exact gk_core_other_tables. Qed.
+
+(* applied bits: one application-flag update touches exactly one byte, OR-ing 1 << bit into it ... *)
+Theorem c18_applied_bit_update_exact : forall d i b d', set_bit d i b = Some d' ->
+  length d' = length d /\
+  forall k, nth_error d' k =
+            if Nat.eqb k i then option_map (fun x => Z.lor x (Z.shiftl 1 b)) (nth_error d k) else nth_error d k.
+Proof. exact set_bit_spec. Qed.
+(* ... and the result of marking a set of patches does not depend on their order *)
+Theorem c18_applied_bits_order_independent : forall l l', Permutation l l' ->
+  forall st, mark_all st l = mark_all st l'.
+Proof. exact mark_all_perm. Qed.
+
+(* atomic bookkeeping: for EVERY decoder (hence every failure index and error kind), every font and
+   every status map, an error leaves the caller's status map exactly as it was *)
+Theorem c18_error_leaves_bookkeeping : forall dec f inv noninv st e st',
+  apply_next dec f inv noninv st = (inl e, st') -> st' = st.
+Proof. exact apply_next_error_leaves_bookkeeping. Qed.
+
+Theorem c18_success_flips_exactly_applied : forall dec f inv noninv st F st',
+  apply_next dec f inv noninv st = (inr F, st') ->
+  (exists p, inv = Some p /\ (exists d, lookup st (pi_uri p) = Some (Some d)) /\ st' = set_applied st (pi_uri p)) \/
+  st' = fold_left (fun s i => set_applied s (pi_uri i)) noninv st.
+Proof. exact apply_next_success_flips. Qed.
+
+(* glyph keyed patches that agree on shared glyphs: any permutation gives the identical font (all tables) *)
+Theorem c18_order_independent : forall f (ivs ivs' : list (pinfo * gp)) F,
+  Permutation ivs ivs' -> views_agree T_glyf (map snd ivs) ->
+  gk_core f (map fst ivs) (map snd ivs) = inr F -> gk_core f (map fst ivs') (map snd ivs') = inr F.
+Proof. exact gk_core_perm. Qed.
+
+(* NOT PROVED (tested by the harness oracle over all two-call groupings, each call also being a
+   correspondence case):
+   grouping_independent : views_agree T_glyf (v1 ++ v2) ->
+     gk_core f (i1 ++ i2) (v1 ++ v2) = inr F12 -> gk_core f i1 v1 = inr F1 -> gk_core F1 i2 v2 = inr F2 ->
+     F2 = F12. *)
+
+Print Assumptions c18_table_keyed_exact.
+Print Assumptions c18_incompatible_before_any_decode.
+Print Assumptions c18_glyph_keyed_exact.
+Print Assumptions c18_first_patch_wins.
+Print Assumptions c18_offsets_ascending.
+Print Assumptions c18_offset_type_widens_only_when_needed.
+Print Assumptions c18_glyf_loca_are_the_builder_output.
+Print Assumptions c18_other_tables_identical.
+Print Assumptions c18_applied_bit_update_exact.
+Print Assumptions c18_applied_bits_order_independent.
+Print Assumptions c18_error_leaves_bookkeeping.
+Print Assumptions c18_success_flips_exactly_applied.
+Print Assumptions c18_order_independent.
